@@ -2,6 +2,10 @@ import WhVerif.Model.C13
 import WhVerif.Spec.C13
 import WhVerif.Lemmas.C13
 import WhVerif.Lemmas.C13Compose
+import WhVerif.Model.C13Header
+import WhVerif.Lemmas.C13Header
+import WhVerif.Spec.C13Edit
+import WhVerif.Lemmas.C13Edit
 /-!
 # C13 — unphase accepts every VCF, removes all phase information and nothing else
 
@@ -288,5 +292,149 @@ example : (C04.writeChrom exC04Cfg none [exC04Rec]).map (fun o => (ofC04 o.recor
 open WhVerif in
 example : ∀ l ∈ C04.removeFirstPhasing [⟨"phasing", none, "", "", "none"⟩, ⟨"FORMAT", some "PS", "1", "Integer", ""⟩],
     l.key ≠ "phasing" := by decide
+
+open WhVerif
+/-! ## more on the header, and the whole file (`Model/C13Header.lean`; round E12) -/
+
+/-- **header_rest_unchanged**: sharper than membership — restricted to the lines that are neither `##phasing` lines nor
+FORMAT definitions of HP/PQ/PS (`keepLine`), input and output header are the same *list* (same lines, same order, same
+multiplicity), for the header function with and without fixes/F61.patch; the repaired function is exactly that filter. -/
+theorem header_rest_unchanged (h : List C04.HLine) :
+    (unphaseHeader h).filter keepLine = h.filter keepLine ∧ unphaseHeaderFix h = h.filter keepLine := by
+  refine ⟨?_, unphaseHeaderFix_eq h⟩
+  rw [unphaseHeader_eq, List.filter_filter]
+  have : (removeFirst isPhasingLine h).filter (fun a => keepLine a && !isPhaseFormat a)
+      = (removeFirst isPhasingLine h).filter keepLine := by
+    apply List.filter_congr
+    intro x _
+    rw [keepLine_eq]
+    cases isPhasingLine x <;> cases isPhaseFormat x <;> rfl
+  rw [this, filter_removeFirst isPhasingLine keepLine phasing_not_keep]
+
+/-- **header_idempotent_iff** (exact extent of F61 = F76): the header function with the `break` is idempotent on a header
+iff the header has at most one `##phasing` line (`header_idempotent_of_single_phasing` is the "if" direction). -/
+theorem header_idempotent_iff (h : List C04.HLine) :
+    unphaseHeader (unphaseHeader h) = unphaseHeader h ↔ (h.filter isPhasingLine).length ≤ 1 := by
+  have hstep : unphaseHeader (unphaseHeader h) = removeFirst isPhasingLine (unphaseHeader h) := by
+    -- the second pass finds no FORMAT definition to remove
+    rw [unphaseHeader_eq (unphaseHeader h)]
+    apply List.filter_eq_self.mpr
+    intro x hx
+    have hx' : x ∈ unphaseHeader h := (removeFirst_sublist _ _).subset hx
+    have := (header_only_phase_lines_removed h).1 x hx'
+    simp [this]
+  rw [hstep, removeFirst_eq_self_iff]
+  have hcount := count_phasing_cur h
+  constructor
+  · intro hall
+    have : (unphaseHeader h).filter isPhasingLine = [] := List.filter_eq_nil_iff.mpr (fun x hx => by simp [hall x hx])
+    rw [this] at hcount
+    simp at hcount
+    omega
+  · intro hle x hx
+    cases hp : isPhasingLine x with
+    | false => rfl
+    | true =>
+      have : x ∈ (unphaseHeader h).filter isPhasingLine := List.mem_filter.mpr ⟨hx, hp⟩
+      have hpos : 0 < ((unphaseHeader h).filter isPhasingLine).length := List.length_pos_of_mem this
+      omega
+
+/-- with at most one `##phasing` line the two header functions agree -/
+theorem header_eq_fix_of_single_phasing (h : List C04.HLine) (hle : (h.filter isPhasingLine).length ≤ 1) :
+    unphaseHeader h = unphaseHeaderFix h := by
+  rw [unphaseHeader_eq, unphaseHeaderFix_eq, removeFirst_eq_filter isPhasingLine h hle, List.filter_filter]
+  apply List.filter_congr
+  intro x _
+  rw [keepLine_eq, Bool.and_comm]
+
+example : ∃ h : List C04.HLine, (h.filter isPhasingLine).length ≤ 1 ∧ h ≠ [] :=
+  ⟨[⟨"phasing", none, "", "", "none"⟩, ⟨"FORMAT", some "PS", "1", "Integer", ""⟩], by decide, by decide⟩
+
+/-- **header_phase_only_edit**: headers that differ only in `##phasing` lines and HP/PQ/PS FORMAT definitions (what a
+phasing writer adds) have the same unphased header. -/
+theorem header_phase_only_edit (h h' : List C04.HLine) (he : h'.filter keepLine = h.filter keepLine) :
+    unphaseHeaderFix h' = unphaseHeaderFix h := by
+  rw [unphaseHeaderFix_eq, unphaseHeaderFix_eq, he]
+
+/-- **output_declares_its_keys**: if the header of the input declares every FORMAT key its records use, so does the output
+(with either header function): no definition that an output record still needs is removed — htslib can serialise the
+result. -/
+theorem output_declares_its_keys (f : VcfFile) (hd : Declared f) :
+    Declared (unphaseFileCur f) ∧ Declared (unphaseFileFix f) := by
+  have key : ∀ r' ∈ unphase f.records, ∀ k ∈ recordKeys r', ∃ l ∈ f.header,
+      (decide (l.key = "FORMAT") && decide (l.id = some k)) = true ∧ keepLine l = true := by
+    intro r' hr' k hk
+    simp only [unphase, List.mem_map] at hr'
+    obtain ⟨r, hr, rfl⟩ := hr'
+    obtain ⟨hk1, hk2⟩ := recordKeys_unphase r k hk
+    have := hd r hr k hk1
+    unfold C04.defined at this
+    obtain ⟨l, hl, hlk⟩ := List.any_eq_true.mp this
+    refine ⟨l, hl, hlk, ?_⟩
+    simp only [Bool.and_eq_true, decide_eq_true_eq] at hlk
+    rw [keepLine_eq]
+    have h1 : isPhasingLine l = false := by
+      unfold isPhasingLine; rw [hlk.1]; rfl
+    have h2 : isPhaseFormat l = false := by
+      unfold isPhaseFormat; rw [hlk.2]; simp [hk2]
+    simp [h1, h2]
+  refine ⟨?_, ?_⟩
+  · intro r' hr' k hk
+    obtain ⟨l, hl, hlk, hkeep⟩ := key r' hr' k hk
+    exact List.any_eq_true.mpr ⟨l, mem_cur_of_keep _ l hl hkeep, hlk⟩
+  · intro r' hr' k hk
+    obtain ⟨l, hl, hlk, hkeep⟩ := key r' hr' k hk
+    exact List.any_eq_true.mpr ⟨l, mem_fix_of_keep _ l hl hkeep, hlk⟩
+
+example : ∃ f : VcfFile, Declared f ∧ f.records ≠ [] ∧ f.header ≠ [] :=
+  ⟨⟨[⟨"FORMAT", some "GT", "1", "String", ""⟩, ⟨"FORMAT", some "PS", "1", "Integer", ""⟩],
+    [⟨[], [⟨some ⟨[some 0, some 1], true⟩, [("PS", "5")]⟩]⟩]⟩, by unfold Declared; decide, by decide, by decide⟩
+
+/-- **file_idempotent**: applying `unphase` twice to a file — header and records — equals applying it once (repaired header
+function); with the `break` this holds exactly when the header has at most one `##phasing` line. -/
+theorem file_idempotent (f : VcfFile) :
+    unphaseFileFix (unphaseFileFix f) = unphaseFileFix f ∧
+    (unphaseFileCur (unphaseFileCur f) = unphaseFileCur f ↔ (f.header.filter isPhasingLine).length ≤ 1) := by
+  refine ⟨?_, ?_⟩
+  · simp only [unphaseFileFix, (header_fix_idempotent f.header).1, idempotent]
+  · simp only [unphaseFileCur, idempotent, VcfFile.mk.injEq, and_true]
+    exact header_idempotent_iff f.header
+
+/-- **file_unphase_phase_eq_unphase**: a file whose records were only phase-edited and whose header only gained or lost
+`##phasing` lines / HP, PQ, PS definitions unphases to the same file. -/
+theorem file_unphase_phase_eq_unphase (f f' : VcfFile) (hr : PhaseOnlyEdit f.records f'.records)
+    (hh : f'.header.filter keepLine = f.header.filter keepLine) : unphaseFileFix f' = unphaseFileFix f := by
+  simp only [unphaseFileFix, unphase_phase_eq_unphase hr, header_phase_only_edit _ _ hh]
+
+/-! ## the executable edit checker used by the check (`Spec/C13Edit.lean`) -/
+
+/-- **edit_checker_iff**: `editB` decides the phase-only-edit relation (permute the alleles of fully present genotypes,
+set separators at will, add / change / delete HP, PQ, PS — nothing else). -/
+theorem edit_checker_iff (v v' : List Record) : editB v v' = true ↔ PhaseOnlyEdit v v' := editB_iff v v'
+
+/-- **unphase_of_checked_edit**: whatever the check's generator does to a file, if the checker accepts the pair then both
+files unphase to the same records — this is the statement the check evaluates on the real `whatshap unphase` for calls of
+every ploidy (the histories through `whatshap phase` only reach diploid calls). -/
+theorem unphase_of_checked_edit (v v' : List Record) (h : editB v v' = true) : unphase v' = unphase v :=
+  unphase_phase_eq_unphase ((editB_iff v v').mp h)
+
+example : editB [⟨["chr1"], [⟨some ⟨[some 0, some 1, some 1], false⟩, [("DP", "3")]⟩]⟩]
+    [⟨["chr1"], [⟨some ⟨[some 1, some 0, some 1], true⟩, [("PS", "7"), ("DP", "3")]⟩]⟩] = true := by decide
+
+/-- **history_unphase_invariant** (the "histories" part of the quantifier): along any sequence of phase applications
+(phase-only edits) and unphase applications, unphasing the last file gives the same records as unphasing the first. -/
+theorem history_unphase_invariant {v w : List Record} (h : History v w) : unphase w = unphase v := by
+  induction h with
+  | refl v => rfl
+  | step hs _ ih =>
+    rw [ih]
+    cases hs with
+    | edit he => exact unphase_phase_eq_unphase he
+    | unphased hu => rw [hu]; exact idempotent _
+
+/-- a history with both kinds of steps: phase (alleles swapped, phased, PS added), then unphase -/
+example : ∃ v v' : List Record, v ≠ v' ∧ History v (unphase v') :=
+  ⟨[⟨["chr1"], [⟨some ⟨[some 0, some 1], false⟩, []⟩]⟩], [⟨["chr1"], [⟨some ⟨[some 1, some 0], true⟩, [("PS", "5")]⟩]⟩],
+    by decide, .step (.edit ((edit_checker_iff _ _).mp (by decide))) (.step (.unphased rfl) (.refl _))⟩
 
 end WhVerif.Props.C13
